@@ -73,12 +73,14 @@ def run(prop, tier):
         outs = {}
         nper = max(1, C.NCPU // 4)
         nfp = 96 if q else 600
+        nlim = 73      # the single-limit cases of C17 (values at, beyond and far beyond every capacity limit, e.g. INT_MIN)
         def runcfg(i):
             o1 = os.path.join(wd, "h_" + names[i])
             o2 = os.path.join(wd, "f_" + names[i])
             C.run_driver(exes[i], "hist", nh, o1, args=hargs, workers=nper)
             C.run_driver(exes[i], "loaddump", len(allfiles), o2, args=["--list", lst, "--resave", "1"], workers=nper)
             C.run_driver(exes[i], "fpprobe", nfp, os.path.join(wd, "p_" + names[i]), workers=nper)
+            C.run_driver(exes[i], "limits", nlim, os.path.join(wd, "l_" + names[i]), args=["--pairs", "0", "--timeout", "600"], workers=nper, chunk=4)
             C.run_driver(exes[i], "damage", len(dspecs), os.path.join(wd, "d_" + names[i]), args=["--list", dlst, "--timeout", "60"], workers=nper, chunk=100)
             return o1, o2
         with ThreadPoolExecutor(4) as ex:
@@ -131,6 +133,15 @@ def run(prop, tier):
                     first = next(("%s  <>  %s" % (a[:200], b[:200]) for a, b in zip(ref, cur) if a != b), "log lengths differ")
                     viols.append(dict(prop="C19", key="config_dependent/float_environment_probe", detail="probe %d: %s vs %s: %s" % (i, base, n, first), case=i))
                     break
+        for i in range(nlim):
+            ref = [x for x in filtered_log(os.path.join(wd, "l_" + base, "case_%d.log" % i)) if not x.startswith("CNT")]
+            compared["limit_case"] += 1
+            for n in names[1:]:
+                cur = [x for x in filtered_log(os.path.join(wd, "l_" + n, "case_%d.log" % i)) if not x.startswith("CNT")]
+                if cur != ref:
+                    first = next(("%s  <>  %s" % (a[:160], b[:160]) for a, b in zip(ref, cur) if a != b), "log lengths differ")
+                    viols.append(dict(prop="C19", key="config_dependent/limit_case", detail="limit case %d: %s vs %s: %s" % (i, base, n, first), case=i))
+                    break
         for i in range(len(dspecs)):
             def outcome(n):
                 l = [x for x in filtered_log(os.path.join(wd, "d_" + n, "case_%d.log" % i)) if x.startswith(("RES", "END", "EV"))]
@@ -154,7 +165,7 @@ def run(prop, tier):
                 if cur != ref:
                     viols.append(dict(prop="C19", key="config_dependent/damaged_input_outcome", detail="%s: %s gives %s, %s gives %s" % (dspecs[i].split("|", 1)[1], base, ref[-1:], n, cur[-1:]), case=i))
                     break
-        cov = dict(evaluations=(nh + len(allfiles) + nfp + len(dspecs)) * len(cfgs), distinct_nontrivial=nh + len(allfiles) + nfp + len(set(dspecs)),
+        cov = dict(evaluations=(nh + len(allfiles) + nfp + nlim + len(dspecs)) * len(cfgs), distinct_nontrivial=nh + len(allfiles) + nfp + nlim + len(set(dspecs)),
                    rule="each seeded API history (with final save) and each corpus / pattern file (load, snapshot, re-save) is executed by the same driver linked against every configuration of the library built by the repository's CMake; filtered event logs (operations, outcomes incl. exception classes, monitor lines), snapshot JSON and SHA-256 of saved files must be identical to the first configuration; plus a floating-point-environment probe (rates at the extremes of the float range driving the library's only float arithmetic); distinct = distinct workload items",
                    samples=[dict(configurations=names), dict(history_args=hargs), dict(file=os.path.basename(allfiles[0]))], configurations=names,
                    items_compared=dict(compared), child_end_status_all_configs=dict(statuses))
